@@ -59,6 +59,11 @@ class Sched:
         self.session = None  # daemon runs: the client / pipes (ENV)
         self.switches = 0
         self.decisions = 0
+        # SIGALRM in virtual time (signal.alarm / setitimer(ITIMER_REAL))
+        self.alarm_at = None
+        self.alarm_interval = 0.0
+        self.alarm_handler = None
+        self._in_alarm = False
 
     # -- threads -------------------------------------------------------------------------------------
     def _new_state(self, name):
@@ -123,6 +128,42 @@ class Sched:
     def alive(self, tid):
         return self.threads[tid].status != "done"
 
+    # -- SIGALRM -------------------------------------------------------------------------------------
+    def alarm_left(self):
+        return 0.0 if self.alarm_at is None else max(self.alarm_at - self.w.clock.now, 1e-6)
+
+    def set_alarm(self, seconds, interval):
+        self.alarm_at = None if seconds is None else self.w.clock.now + seconds
+        self.alarm_interval = interval
+        if self.alarm_at is not None:
+            self.w.probe("sigalrm-armed")
+            if self.preempt_every and self.w.steps is not None:
+                self.w.steps.enable_monitoring()  # so that "the process is descheduled while computing" can happen
+
+    def deliver_alarm(self):
+        """called in the main thread at scheduling points: run the SIGALRM handler if the timer has expired"""
+        if self.alarm_at is None or self._in_alarm or self.w.clock.now < self.alarm_at:
+            return
+        if _real_get_ident() != self.main.ident:
+            return
+        self.alarm_at = (self.w.clock.now + self.alarm_interval) if self.alarm_interval else None
+        h = self.alarm_handler
+        self.w.event("sched", "sigalrm")
+        self.w.probe("sigalrm-delivered")
+        if h is None or h == 0:  # SIG_DFL: the process is terminated by the signal
+            from .seams_base import SimStop
+            s = self.session
+            if s is not None:
+                s._violate("terminated", "the daemon is killed by SIGALRM (alarm armed, no handler installed)")
+            raise SimStop("killed by SIGALRM")
+        if h == 1:  # SIG_IGN
+            return
+        self._in_alarm = True
+        try:
+            h(14, None)
+        finally:
+            self._in_alarm = False
+
     # -- blocking ------------------------------------------------------------------------------------
     def block(self, on=None, timeout=None, stdin=False):
         """the current thread cannot continue until notify(on) or until `timeout` virtual seconds have passed.
@@ -132,7 +173,19 @@ class Sched:
             return False
         st.status, st.on, st.stdin, st.timed_out = "blocked", on, stdin, False
         st.wake = None if timeout is None else self.w.clock.now + float(timeout)
+        if st is self.main and self.alarm_at is not None and (st.wake is None or self.alarm_at < st.wake):
+            # a signal interrupts the wait: wake up when the alarm expires, run the handler, then wait on
+            remaining_deadline = st.wake
+            st.wake = self.alarm_at
+            self._switch_from(st)
+            self.deliver_alarm()
+            if st.timed_out and (remaining_deadline is None or self.w.clock.now < remaining_deadline):
+                left = None if remaining_deadline is None else remaining_deadline - self.w.clock.now
+                return self.block(on=on, timeout=left, stdin=stdin)
+            return not st.timed_out
         self._switch_from(st)
+        if st is self.main:
+            self.deliver_alarm()
         return not st.timed_out
 
     def sleep(self, d):
@@ -172,17 +225,31 @@ class Sched:
 
     def yield_point(self, tag="yield"):
         """the current thread could be descheduled here"""
+        if not self.multi and self.alarm_at is not None:
+            # a sequential program with a pending alarm: it may be descheduled (TIME) until the alarm expires
+            if self.plan_used < len(self.plan):
+                v = int(self.plan[self.plan_used])
+                self.plan_used += 1
+                self.decisions += 1
+                if v % 2 and self.alarm_at > self.w.clock.now:
+                    self.w.fault_fired("thread_stall")
+                    self.w.event("sched", "stall", round(self.alarm_at - self.w.clock.now, 6))
+                    self.w.clock.advance(self.alarm_at - self.w.clock.now)
+            self.deliver_alarm()
+            return
         if not self.multi:
             return
         st = self.me()
         if st.status != "runnable":
             return
         self._switch_from(st)
+        if st is self.main:
+            self.deliver_alarm()
 
     def on_step(self, code):
         """called for interpreter events when pre-emption is on; only inside repository code, so that no lock of the
         interpreter or the standard library is held across the hand-over"""
-        if not self.multi or not self.preempt_every:
+        if not (self.multi or self.alarm_at is not None) or not self.preempt_every:
             return
         self._events_since += 1
         if self._events_since < self.preempt_every:
